@@ -7,6 +7,7 @@ regenerates lean/FairModel/Generated/CorrRemoverSrc.lean:
   fitMeanKind        what `self.sensitive_mean_` is: `<sensitive block>.mean(axis=0)` (per column) or `.mean()` (grand mean)
   fitCenter          the entry-wise centring expression of the first lstsq operand (operand order of the subtraction)
   (checked)          lstsq(A, b): A = the centred sensitive block, b = the other columns; beta_ = first result
+  lstsqRcond         the rcond of that call: `none` for None / omitted, `some q` for a numeric literal, anything else refused
   transformMean      whether `transform` centres with the STORED `self.sensitive_mean_` or recomputes a mean from its input
   transformCenter    the entry-wise centring expression inside `transform`
   outEntry           the entry-wise output as a function of (alpha, use, proj) where proj = (centred sensitive row)·beta_
@@ -353,9 +354,8 @@ def lift_fit(fn, roles, split="_split_X"):
                 _bad(f"fit: self.beta_ = `{_src(v)[:80]}`")
     if beta is None or not (isinstance(beta, ast.Call) and _src(beta.func) in ("np.linalg.lstsq", "numpy.linalg.lstsq")):
         _bad("fit: beta_ is not the first result of np.linalg.lstsq")
-    if len(beta.args) != 2 or any(k.arg != "rcond" or _src(k.value) != "None" for k in beta.keywords):
-        _bad(f"fit: lstsq call of unknown shape (operands positional, `rcond=None` at most): {_src(beta)[:120]}")
-    A, b = beta.args
+    rcond, rcond_src = _lstsq_rcond(beta)
+    A, b = beta.args[:2]
     if _src(b) != "USE":
         _bad(f"fit: second lstsq operand is `{_src(b)[:60]}`, not the non-sensitive columns")
     # the stored mean
@@ -383,7 +383,42 @@ def lift_fit(fn, roles, split="_split_X"):
     extra = [t for t, _ in find_means(A, "fit") if t not in means]
     if extra:
         _bad(f"fit: first lstsq operand uses another mean: {extra}")
-    return dict(kind=kind, center=expr, guard=guard, src_mean=_src(m), src_A=_src(A).replace(full_mean_src, "self.sensitive_mean_"))
+    return dict(kind=kind, center=expr, guard=guard, src_mean=_src(m), src_A=_src(A).replace(full_mean_src, "self.sensitive_mean_"),
+                rcond=rcond, src_rcond=rcond_src)
+
+
+def _lstsq_rcond(call):
+    """The `rcond` of `np.linalg.lstsq(a, b, rcond=None)` (numpy signature: a, b, rcond).  -> (Lean `Option Rat` text, source text)
+    `None` -- written, or omitted (the default of numpy >= 2.0, the installed version) -- is numpy's machine-precision cut-off
+    eps * max(M, N): emitted as `none`, the only value under which the model assumes the normal equations of the result
+    (`CorrL.lstsqAssumed`).  An explicit NUMBER (literal, possibly signed; third positional argument or keyword) is a
+    truncated least-squares solve: emitted as `some q`, so that `C15.lifted_lstsq_untruncated` and everything built on it
+    break by name.  Anything else (a name, an expression, another keyword, *args) is refused."""
+    from fractions import Fraction
+    if any(isinstance(a, ast.Starred) for a in call.args) or not 2 <= len(call.args) <= 3:
+        _bad(f"fit: lstsq call of unknown shape (two positional operands, optional rcond): {_src(call)[:120]}")
+    given = list(call.args[2:])
+    for k in call.keywords:
+        if k.arg != "rcond":
+            _bad(f"fit: lstsq keyword `{k.arg}` I do not understand: {_src(call)[:120]}")
+        given.append(k.value)
+    if len(given) > 1:
+        _bad(f"fit: lstsq rcond given twice: {_src(call)[:120]}")
+    if not given:
+        return "none", "rcond=None"        # same text as the written form: dropping the keyword is a harmless refactor
+    v = given[0]
+    if isinstance(v, ast.Constant) and v.value is None:
+        return "none", "rcond=None"
+    sign = 1
+    w = v
+    if isinstance(w, ast.UnaryOp) and isinstance(w.op, (ast.USub, ast.UAdd)):
+        sign = -1 if isinstance(w.op, ast.USub) else 1
+        w = w.operand
+    if isinstance(w, ast.Constant) and isinstance(w.value, (int, float)) and not isinstance(w.value, bool) \
+            and w.value == w.value and abs(w.value) != float("inf"):
+        q = sign * Fraction(repr(w.value)) if isinstance(w.value, float) else Fraction(sign * w.value)
+        return f"some (({q.numerator} : Rat) / {q.denominator})", f"rcond={_src(v)}"
+    _bad(f"fit: lstsq rcond is `{_src(v)[:60]}`: neither None nor a numeric literal")
 
 
 def lift_transform(fn, roles, split="_split_X"):
@@ -469,6 +504,10 @@ def corr_remover(repo):
         o.extend([f"/-- `{_doc(src)}` -/", f"def {name} {params} : {ty} := {expr}", ""])
     d("fitMeanKind", "", "MeanKind", "." + ft["kind"], "self.sensitive_mean_ = " + ft["src_mean"])
     d("fitCenter", "(s mean : Rat)", "Rat", ft["center"], "np.linalg.lstsq(" + ft["src_A"] + ", USE)  -- first operand, entry-wise")
+    o.extend(["/-- the `rcond` argument of the `np.linalg.lstsq` call of `fit`: `" + _doc(ft["src_rcond"]) + "`.",
+              "    `none` = numpy's machine-precision cut-off eps * max(M, N) (`rcond=None`, also the default when omitted, numpy >= 2.0);",
+              "    `some q` = singular values below q * (largest singular value) are treated as zero (a truncated solve). -/",
+              f"def lstsqRcond : Option Rat := {ft['rcond']}", ""])
     d("transformMean", "", "MeanSrc", "." + tr["mean_src"], "centring vector of transform: " + tr["src_center"])
     d("transformCenter", "(s mean : Rat)", "Rat", tr["center"], tr["src_center"])
     d("outEntry", "(alpha use proj : Rat)", "Rat", tr["out"], "return " + tr["src_out"] + "   with PROJ = (centred sensitive).dot(self.beta_)")
@@ -481,5 +520,5 @@ def corr_remover(repo):
     d("sensitiveIdx", "(lookup : Nat → Nat) (ids : List Nat)", "List Nat", sens_def[0], sens_def[1])
     d("nonSensitiveIdx", "(m : Nat) (sensitive : List Nat)", "List Nat", kept_def[0], kept_def[1])
     o += ["end CorrRemoverSrc", ""]
-    meta = dict(fit_mean=ft["kind"], transform_mean=tr["mean_src"], out=tr["out"], split_returns=roles)
+    meta = dict(fit_mean=ft["kind"], transform_mean=tr["mean_src"], out=tr["out"], split_returns=roles, rcond=ft["rcond"])
     return "CorrRemoverSrc.lean", "\n".join(o), meta
